@@ -11,5 +11,6 @@ CONSTANTS
   ClampTtl = TRUE
   MonoTs = TRUE
   NilIsError = FALSE
+  EarlyClear = FALSE
 INVARIANTS ITypeOK Conforms KeysAreTheBucket NeverStuck RescueWithinBound
 CHECK_DEADLOCK FALSE
